@@ -35,6 +35,12 @@ func replayC04(i int, raw json.RawMessage, seed int64) hx.Result {
 	return hx.Result{OK: true, NT: nt}
 }
 
+// persistable: the error that comes WITH an event callers may keep.
+func persistable(err error) bool {
+	ve, ok := err.(gmsl.EventValidationError)
+	return ok && ve.Persistable
+}
+
 func strippedOnReceipt(ver string) []string {
 	if isFormatV1(ver) {
 		return []string{"outlier", "destinations", "age_ts", "unsigned"}
@@ -179,9 +185,13 @@ func runC04(r *rec, idx int, seed int64) *hx.Result {
 		return fail("C04/version/unregistered", "room version "+r.Ver+" is not registered", nil, nil)
 	}
 	b := protoOf(r.Ver, &r.Proto, seed)
+	persist := r.Proto.Lim != "" && r.Proto.Lim != "none" // a field over 255 bytes within 255 code points
 	p, err := b.build(r.Ver)
-	if err != nil {
+	if err != nil && !(persist && persistable(err) && p != nil) {
 		return fail("C04/build/error", "EventBuilder.Build fails: "+err.Error(), nil, err.Error())
+	}
+	if persist && err == nil {
+		return fail("C04/build/error", "EventBuilder.Build raises no error for a "+r.Proto.Lim+" field", nil, nil)
 	}
 	if r.Pre != "none" {
 		if p, err = applyOp(r.Ver, impl, p, r.Pre); err != nil {
@@ -211,8 +221,22 @@ func runC04(r *rec, idx int, seed int64) *hx.Result {
 	wire := tamper(r, orig, idx, seed)
 	class := tamperClass(r)
 	qe, err := impl.NewEventFromUntrustedJSON(append([]byte(nil), wire...))
-	if err != nil {
+	if persist {
+		// the event comes with a persistable error: the caller may keep it (EventJSONs.UntrustedEvents does), so every
+		// clause applies to it
+		if !persistable(err) || qe == nil {
+			return fail("C04/persistable/"+class, fmt.Sprintf("NewEventFromUntrustedJSON of an event with a %s field (room version %s): want the event next to a persistable error, got event=%v error=%v", r.Proto.Lim, r.Ver, qe != nil, err), nil, fmt.Sprint(err))
+		}
+	} else if err != nil {
 		return fail("C04/parse-error/"+class, fmt.Sprintf("NewEventFromUntrustedJSON refuses the event (room version %s): %v", r.Ver, err), nil, string(wire))
+	}
+	// the batch entry point keeps exactly what the single one hands out
+	kept := gmsl.EventJSONs{append([]byte(nil), wire...)}.UntrustedEvents(gmsl.RoomVersion(r.Ver))
+	if len(kept) != 1 {
+		return fail("C04/UntrustedEvents/count/"+class, fmt.Sprintf("EventJSONs.UntrustedEvents keeps %d events of 1 (room version %s)", len(kept), r.Ver), 1, len(kept))
+	}
+	if kept[0].Redacted() != r.Red || !sameJSONBytes(kept[0].JSON(), qe.JSON()) {
+		return fail("C04/UntrustedEvents/differs/"+class, "EventJSONs.UntrustedEvents keeps another event than NewEventFromUntrustedJSON hands out", string(qe.JSON()), string(kept[0].JSON()))
 	}
 	// ---- redacted iff the content hash does not match ---------------------------------------------------------
 	if qe.Redacted() != r.Red {
@@ -351,7 +375,13 @@ func runC04(r *rec, idx int, seed int64) *hx.Result {
 // process: the tampered copy must come back exactly as at first, the genuine one both times alike and (unless it was
 // redacted before it was sent) unredacted.
 func historyFree(r *rec, impl gmsl.IRoomVersion, orig, wire []byte, first gmsl.PDU, class string) *hx.Result {
-	parse := func(b []byte) (gmsl.PDU, error) { return impl.NewEventFromUntrustedJSON(append([]byte(nil), b...)) }
+	parse := func(b []byte) (gmsl.PDU, error) {
+		e, err := impl.NewEventFromUntrustedJSON(append([]byte(nil), b...))
+		if e != nil && persistable(err) {
+			return e, nil // kept by the caller
+		}
+		return e, err
+	}
 	o1, err := parse(orig)
 	if err != nil {
 		return fail("C04/history/genuine/parse-error", "NewEventFromUntrustedJSON refuses the untampered event: "+err.Error(), nil, string(orig))
